@@ -87,6 +87,12 @@ theorem demo_eval : (evalN 6).eval progE [] demoSt = .ok (.int 1) demoSt' := by 
 
 abbrev demoD : RepData2 tops := tD [demoLam]
 
+/-- what represents an integer on this heap -/
+theorem tVRc_int {h : THeap} {S : Array Cell} {v : VCell} {n : Int} (x : tVRc h S v (.int n)) :
+    v = .opaque ("n" ++ toString n) := by
+  cases x with
+  | base hb => exact hb
+
 /-- loaded code from a list of cells -/
 theorem CodeAt2.ofAll2 {H : Type} {ops : HeapOps H} {D : RepData2 ops} {em : List (Text × Source)} {h : H}
     {S : Array Cell} {l base : Nat} {code : List BC} (vs : List VCell) (hl : ops.isLambda h l = true)
@@ -117,11 +123,11 @@ theorem demo_frag : F2 (fun _ => False) 20 c0 (bound []) false progE := by
 
 theorem demo_loads_n1 (h : THeap) (S : Array Cell) (em : List (Text × Source)) :
     Loads2 demoD em h S (.datum (.num (.fix 1))) (.opaque "n1") :=
-  ⟨(by intro o e; cases e), (by intro w hw; cases hw; rfl)⟩
+  ⟨(by intro o e; cases e), .atom rfl (.base rfl)⟩
 
 theorem demo_loads_n2 (h : THeap) (S : Array Cell) (em : List (Text × Source)) :
     Loads2 demoD em h S (.datum (.num (.fix 2))) (.opaque "n2") :=
-  ⟨(by intro o e; cases e), (by intro w hw; cases hw; rfl)⟩
+  ⟨(by intro o e; cases e), .atom rfl (.base rfl)⟩
 
 theorem demo_code0 (S : Array Cell) : CodeAt2 demoD lamCtx.envmap demoHeap S 0 0 demoLam.bc := by
   refine CodeAt2.ofAll2 demoCells0 rfl (fun i _ => by rw [Nat.zero_add]; rfl) ?_
@@ -133,7 +139,7 @@ theorem demo_code0 (S : Array Cell) : CodeAt2 demoD lamCtx.envmap demoHeap S 0 0
 theorem demo_code1 (S : Array Cell) : CodeAt2 demoD c0.envmap demoHeap S 1 0 progCode := by
   refine CodeAt2.ofAll2 demoCells1 rfl (fun i _ => by rw [Nat.zero_add]; rfl) ?_
   have hb : Loads2 demoD c0.envmap demoHeap S (.datum (.bool true)) (.bool true) :=
-    ⟨(by intro o e; cases e), (by intro w hw; cases hw; rfl)⟩
+    ⟨(by intro o e; cases e), .atom rfl (.base rfl)⟩
   have hlam : Loads2 demoD c0.envmap demoHeap S (.lambda 0) (.ptr 0) := by
     refine ⟨rfl, fun lamM hl => ?_⟩
     have : lamM = demoLam := by
@@ -172,7 +178,7 @@ theorem demo_closure_runs :
 /-- … in particular `acc` holds the number's cell -/
 theorem demo_closure_acc : ∃ W' s', Run2 demoD W' demoState 11 demoSt demoSt' (.int 1) s' ∧ s'.acc = .opaque "n1" := by
   obtain ⟨W', s', r⟩ := demo_closure_runs
-  exact ⟨W', s', r, r.acc⟩
+  exact ⟨W', s', r, tVRc_int r.acc⟩
 
 
 /-! ## a tail call: `((lambda (f) (f #t)) (lambda (x) (if x 1 2)))`
@@ -258,9 +264,9 @@ theorem demoT_code0 (S : Array Cell) : CodeAt2 demoDT lamCtx.envmap demoHeapT S 
   refine CodeAt2.ofAll2 demoCells0 rfl (fun i _ => by rw [Nat.zero_add]; rfl) ?_
   have hslot : Loads2 demoDT lamCtx.envmap demoHeapT S (.envSlot kx) (.lexEnvSlot 0) := ⟨0, by decide, rfl⟩
   have n1 : Loads2 demoDT lamCtx.envmap demoHeapT S (.datum (.num (.fix 1))) (.opaque "n1") :=
-    ⟨(by intro o e; cases e), (by intro w hw; cases hw; rfl)⟩
+    ⟨(by intro o e; cases e), .atom rfl (.base rfl)⟩
   have n2 : Loads2 demoDT lamCtx.envmap demoHeapT S (.datum (.num (.fix 2))) (.opaque "n2") :=
-    ⟨(by intro o e; cases e), (by intro w hw; cases hw; rfl)⟩
+    ⟨(by intro o e; cases e), .atom rfl (.base rfl)⟩
   exact .cons rfl (.cons rfl (.cons hslot (.cons rfl (.cons rfl (.cons rfl (.cons rfl
     (.cons n1 (.cons rfl (.cons rfl (.cons rfl (.cons rfl (.cons n2 (.cons rfl (.cons rfl .nil))))))))))))))
 
@@ -268,7 +274,7 @@ theorem demoT_codeF (S : Array Cell) : CodeAt2 demoDT lamCtxF.envmap demoHeapT S
   refine CodeAt2.ofAll2 demoCellsF rfl (fun i _ => by rw [Nat.zero_add]; rfl) ?_
   have hslot : Loads2 demoDT lamCtxF.envmap demoHeapT S (.envSlot kf) (.lexEnvSlot 0) := ⟨0, by decide, rfl⟩
   have hb : Loads2 demoDT lamCtxF.envmap demoHeapT S (.datum (.bool true)) (.bool true) :=
-    ⟨(by intro o e; cases e), (by intro w hw; cases hw; rfl)⟩
+    ⟨(by intro o e; cases e), .atom rfl (.base rfl)⟩
   exact .cons rfl (.cons rfl (.cons hb (.cons rfl (.cons rfl (.cons rfl (.cons rfl (.cons rfl (.cons hslot
     (.cons rfl (.cons rfl (.cons rfl .nil)))))))))))
 
@@ -303,6 +309,6 @@ theorem demo_tailcall_runs :
   obtain ⟨W', s', _, r⟩ := compileExpr_correct2_nontail (laws [demoLam, demoLamF]) 20 {} c0 0 progT _ progCodeT []
     demo_fragT ctxOK_top demo_compileT (List.prefix_refl _) 8 demoSt (.int 1) demoStT' demo_evalT W0 demoStateT
     (demoT_codeTop _) rfl demoT_inv (envRep_top _ _ _) (by show 0 < 8; omega)
-  exact ⟨W', s', r, r.acc⟩
+  exact ⟨W', s', r, tVRc_int r.acc⟩
 
 end Marwood.Lemmas.CompileCorrect2.Toy
